@@ -306,6 +306,13 @@ def copyability(ctx):
                             detail = 'argument %d of the rebuilt exception is %s' % (i, src(a))
                 ctx.ob(ok, c, '%s.__copy__ rebuilds the exception with its own constructor arguments' % c.name,
                        detail, node=cu.node)
+                # ... as an instance of the class of the original (a user subclass stays that subclass)
+                if len(rets) == 1 and isinstance(rets[0].value, ast.Call):
+                    f = rets[0].value.func
+                    dyn = (isinstance(f, ast.Call) and is_name(f.func, 'type') and len(f.args) == 1 and is_name(f.args[0], cu.params[0])) or \
+                        (isinstance(f, ast.Attribute) and f.attr == '__class__' and is_name(f.value, cu.params[0]))
+                    ctx.ob(dyn, c, '%s.__copy__ keeps the class of the exception being copied: %s(..)' % (c.name, norm(f)),
+                           '' if dyn else 'a subclass of %s raised inside a spec leaves glom() as plain %s' % (c.name, c.name), node=cu.node)
             else:
                 ctx.ob(True, c, '%s is copyable through an inherited __copy__/__reduce__' % c.name)
             continue
@@ -386,6 +393,11 @@ def wrap_keeps_class(ctx):
         okg = any(ctx.program.global_qualname(u, x) == 'core.GlomError' for x in ast.walk(e)
                   if isinstance(x, (ast.Name, ast.Attribute)))
         ctx.ob(okg, u, 'wrapper bases include GlomError: %s' % norm(e), node=e)
+    # building the class can fail too (a class that refuses subclassing): it happens under the same fallback
+    mkn = cfg.node_containing(mk[0])
+    hs_mk = [h for h in cfg.handlers_reached_from(mkn) if handler_covers(cfg, h, 'Exception')]
+    ctx.ob(bool(hs_mk), u, 'a failure to build the wrapper class falls back to the original exception',
+           '' if hs_mk else 'type(name, bases, ns) is outside the try: a TypeError from __init_subclass__ replaces the user\'s exception', node=mk[0])
     # instance built from *exc.args
     built = [c for c in calls_in(u) if len(c.args) == 1 and isinstance(c.args[0], ast.Starred)
              and isinstance(c.args[0].value, ast.Attribute) and c.args[0].value.attr == 'args'
@@ -438,6 +450,16 @@ def raise_discipline(ctx):
             ctx.ob(len(sw) == 1 and is_name(sw[0].func.value, errvar) and is_name(sw[0].args[0], evar)
                    and cfg.node_containing(sw[0]) in glom_side, u,
                    'the copy remembers the original exception: %s' % [norm(c) for c in sw])
+            # ... on every way through the GlomError side, the fallback (the copy failed, the
+            # original object is used) included: __str__ reads the remembered exception
+            if len(sw) == 1:
+                swn = cfg.node_containing(sw[0])
+                after = [n for n in cfg.nodes if n.kind == 'test' and n not in glom_side and n not in other_side
+                         and cfg.find_path(t, {n}, labels=lambda l: l != 'exc') is not None and n in body_nodes]
+                okw, wit = cfg.must_pass(t, set(after), {swn}, labels=lambda l: l != 'exc' or True, start_labels=lambda l, y=yes: l == y) \
+                    if after else (True, None)
+                ctx.ob(okw, u, 'the original is remembered whether or not the copy succeeded',
+                       '' if okw else 'the fallback path skips _set_wrapped: str() of the raised error fails (no trace at all): %s' % fmt_witness(cfg, wit))
     second = [(t, polarity(t.ast, 'isinstance(%s, GlomError)' % errvar)) for t in cfg.nodes
               if errvar and t.kind == 'test' and t in body_nodes]
     second = [(t, e) for t, e in second if e]
@@ -598,11 +620,23 @@ def error_construction_is_total(ctx):
                 continue
             n += 1
             bad = []
-            for a in list(r.exc.args) + [k.value for k in r.exc.keywords]:
+            arg_exprs = list(r.exc.args) + [k.value for k in r.exc.keywords]
+            # a local the message is built from counts with its definition(s)
+            for a in list(arg_exprs):
+                for nm in [x for x in ast.walk(a) if isinstance(x, ast.Name) and x.id in u.locals and x.id not in u.params]:
+                    for d in u.own_nodes():
+                        if isinstance(d, ast.Assign) and len(d.targets) == 1 and is_name(d.targets[0], nm.id) and d.value not in arg_exprs:
+                            arg_exprs.append(d.value)
+            for a in arg_exprs:
                 for c in ast.walk(a):
                     if isinstance(c, ast.Call) and isinstance(c.func, ast.Name) and c.func.id in PARTIAL_ON_USER_VALUES \
                             and c.args and not isinstance(c.args[0], ast.Constant):
                         bad.append(norm(c)[:60])
+                    # ``x.__name__`` of a user value (a callable pattern, a validator): only classes and
+                    # plain functions are sure to have one -- functools.partial objects, callable instances do not
+                    if isinstance(c, ast.Attribute) and c.attr in ('__name__', '__qualname__') and isinstance(c.value, ast.Name) \
+                            and c.value.id in u.params[(1 if u.cls is not None else 0):]:
+                        bad.append(norm(c))
             ctx.ob(not bad, u, 'the error is built without ordering / hashing user values: raise %s' % src(r.exc.func, 40),
                    '' if not bad else '%s can itself raise for arbitrary keys or targets and replace the error' % bad, node=r)
     if n < 20:
@@ -695,3 +729,31 @@ def conversions_not_wider(ctx):
                '' if not extra else '%s raised by the operand would leave glom() as a PathAccessError' % extra, node=h.ast)
     ctx.require(n >= 3, 'conversion handlers of the T interpreter not found (%d)' % n)
     ctx.floor(3)
+
+
+@rule('C04.23')
+def error_rendering_is_total(ctx):
+    """the text of a glom error is rendered lazily (get_message / __repr__) -- and eagerly by
+    whoever embeds it in another message (Fold turns an UnregisteredTarget into a FoldError with
+    '%s' % ut).  Rendering must therefore not be able to raise: in particular it must not splice
+    the recorded path through ``Path(*parts)``, which accepts T-rooted expressions only (a step
+    recorded after an S / A expression raises ValueError, and that ValueError is what leaves
+    glom())"""
+    p = ctx.program
+    n = 0
+    for c in p.classes.values() if hasattr(p, 'classes') else []:
+        pass
+    for u in p.package_units():
+        if u.cls is None or u.name not in ('get_message', '__repr__', '__str__'):
+            continue
+        if not is_subclass(u.cls, 'GlomError'):
+            continue
+        n += 1
+        bad = []
+        for c in calls_in(u):
+            if callee_qual(p, u, c) == 'core.Path' and any(isinstance(a, ast.Starred) for a in c.args):
+                bad.append(norm(c)[:60])
+        ctx.ob(not bad, u, '%s.%s renders without re-building a Path from recorded parts' % (u.cls.name, u.name),
+               '' if not bad else '%s raises ValueError for a part that is an S- / A-rooted expression' % bad)
+    ctx.require(n >= 8, 'error rendering methods not found (%d)' % n)
+    ctx.floor(8)
